@@ -403,10 +403,13 @@ MANIFEST_TEXT = {
              "interleavings TLC explores exhaustively; the same observer operators fold the shim's ordered entropy log of "
              "each real run, and TLC validates that the printed phrase is a current, granted candidate of some thread "
              "whose selected account's address has the requested nibbles, that every request is one the model's worker "
-             "would make, and that bad prefixes are refused.",
+             "would make, and that bad prefixes are refused.  The safety property and the observer's soundness (the judge "
+             "admits every behaviour of the machine) are also machine-checked without bounds: Apalache discharges inductive "
+             "invariants for unbounded requests, TLAPS checks proofs for every number of workers and candidates.",
         design_ref="6 (C18)", note=_TRUST,
-        technique="TLC exhaustive interleaving model check + replay of TLC-generated behaviours as enforced thread schedules "
-                  "in the real binary + trace validation of real concurrent runs via an entropy shim"),
+        technique="TLC exhaustive interleaving model check (+ Apalache inductive invariants, TLAPS proofs of the same spec) + replay "
+                  "of TLC-generated behaviours as enforced thread schedules in the real binary + trace validation of real "
+                  "concurrent runs via an entropy shim"),
     "C17": dict(
         text="The specification has no crash transition (library calls return Ok/Err, every pipeline of Wallet.tla ends in "
              "printed/failed/open).  TLC validates every recorded event of the union of the generated workloads - boundary "
